@@ -150,6 +150,16 @@ def remove (s : State) (name ver : Str) (recursive check force : Bool) (defaultN
     Outcome × State × List Prod :=
   removeWith s (usesInfo s.db s.db.fuel) name ver recursive check force defaultName
 
+/-! ### histories on one `Eups` object: `declare` between two removals -/
+
+/-- `Eups.declare(name, version, productDir)` of a product not declared so far, as far as `remove` is concerned: the
+declaration with the setup lines of its table, its directory, and — for the first version of a product — the tag
+`current` (`declare` makes the first version current on its own).  The database proper is C06's model. -/
+def declare (s : State) (d : Decl) : State :=
+  { s with decls := s.decls ++ [d], dirs := s.dirs ++ [(d.name, d.ver)],
+           tags := if s.decls.any (fun x => x.name == d.name) then s.tags
+                   else s.tags ++ [(d.name, currentTag, d.ver)] }
+
 /-! ### `RemoveCmd.execute` (python/eups/cmd.py): the `-t TAG` forms of the command line -/
 
 /-- `eups remove -t TAG product` (no version): the version of the product that carries the tag is removed -/
